@@ -85,6 +85,20 @@ Lemma second_export_equals_first_lemma :
     render b (after_exports true ws m) = render b m.
 Proof. intros. rewrite after_exports_identity. reflexivity. Qed.
 
+(* exports interleaved with in-place edits: the object is what the edits alone make of it *)
+Lemma run_steps_edits_only : forall steps m, run_steps true steps m = run_steps true (edits_only steps) m.
+Proof.
+  unfold run_steps. induction steps as [|s steps IH]; intros m; [reflexivity|].
+  destruct s as [w | e]; cbn [fold_left edits_only run_step].
+  - rewrite effect_copies_identity. apply IH.
+  - apply IH.
+Qed.
+
+Lemma export_after_edits_equals_fresh_lemma :
+  forall (Bytes : Type) (render : writer -> matrix -> Bytes) (steps : list step) (b : writer) (m : matrix),
+    render b (run_steps true steps m) = render b (run_steps true (edits_only steps) m).
+Proof. intros. rewrite run_steps_edits_only. reflexivity. Qed.
+
 (* ------------------------------------------------------------------ arxml on the unfixed tree *)
 Lemma arxml_frame_fold :
   forall sigs l, (forall s r, In s sigs -> In r (s_receivers s) -> In r l) ->
